@@ -40,10 +40,13 @@ func runC12(r *Run) {
 	nClients := 3 + r.W.Pick(4)
 	nListers := 1 + r.W.Pick(3)
 	names := []string{"Ann", "Ben", "Cid", "Dee", "Eve", "Fay"}
-	disconnectAll := r.W.Pick(3) == 0
+	disconnectAll := r.W.Pick(2) == 0
 
 	for i := 0; i < nClients; i++ {
 		delay := time.Duration(r.W.Pick(40)) * time.Millisecond
+		if disconnectAll {
+			delay = time.Duration(r.W.Pick(160)) * time.Millisecond // joins keep arriving between the DisconnectAll calls
+		}
 		stay := time.Duration(5+r.W.Pick(300)) * time.Millisecond
 		doSwitch := r.W.Pick(3) == 0
 		name := names[i]
@@ -108,7 +111,29 @@ func runC12(r *Run) {
 	}
 	var calls []*call
 	listersDone := 0
-	for l := 0; l < nListers; l++ {
+	// variant: one more caller does nothing but DisconnectAll, back to back, while players
+	// keep joining and leaving (every call must return; nobody may crash)
+	hammer := r.W.Pick(4) == 0
+	if hammer {
+		nListers++
+		nHam := 20 + r.W.Pick(60)
+		w.s.GoNamed("disconnect-all-caller", func() {
+			defer func() { listersDone++ }()
+			for i := 0; i < nHam && !w.allClientsDone(); i++ {
+				c := &call{kind: "DisconnectAll", inv: w.s.Steps}
+				r.Op("DisconnectAll")
+				w.p.DisconnectAll(textComp("bye"))
+				c.ret = w.s.Steps
+				calls = append(calls, c)
+				if i%4 == 3 {
+					simrt.Sleep(time.Duration(1+i%7)*time.Millisecond, "c12.hammer-gap")
+				} else {
+					simrt.Yield("c12.hammer")
+				}
+			}
+		})
+	}
+	for l := 0; l < nListers-b2i(hammer); l++ {
 		nCalls := 6 + r.W.Pick(30)
 		kinds := make([]int, nCalls)
 		for i := range kinds {
@@ -119,6 +144,7 @@ func runC12(r *Run) {
 			gaps[i] = r.W.Pick(25)
 		}
 		first := l == 0
+		daAt := map[int]bool{r.W.Pick(nCalls): true, r.W.Pick(nCalls): true, r.W.Pick(nCalls): true, nCalls - 1: true}
 		w.s.GoNamed(fmt.Sprintf("lister%d", l), func() {
 			defer func() { listersDone++ }()
 			for i, k := range kinds {
@@ -165,13 +191,14 @@ func runC12(r *Run) {
 				}
 				c.ret = w.s.Steps
 				calls = append(calls, c)
-			}
-			if first && disconnectAll {
-				c := &call{kind: "DisconnectAll", inv: w.s.Steps}
-				r.Op("DisconnectAll")
-				w.p.DisconnectAll(textComp("bye"))
-				c.ret = w.s.Steps
-				calls = append(calls, c)
+				if first && disconnectAll && daAt[i] {
+					// in the middle of the joins and leaves (and once more at the end)
+					c := &call{kind: "DisconnectAll", inv: w.s.Steps}
+					r.Op("DisconnectAll")
+					w.p.DisconnectAll(textComp("bye"))
+					c.ret = w.s.Steps
+					calls = append(calls, c)
+				}
 			}
 		})
 	}
@@ -301,4 +328,11 @@ func keys(m map[string]bool) []string {
 	}
 	sort.Strings(out)
 	return out
+}
+
+func b2i(b bool) int {
+	if b {
+		return 1
+	}
+	return 0
 }
